@@ -328,6 +328,21 @@ func (e *edEnv) checkKey(sk signature.Signer, label string, seed []byte) (edKey,
 	px, py := e.d.PubXY(pub)
 	c.Check("Public", N+"/Public/differs-from-field", px.Cmp(x) == 0 && py.Cmp(y) == 0, desc)
 	c.Check("Equal", N+"/PublicKey.Equal/false-on-same-key", pub.Equal(k.pk) && k.pk.Equal(pub), desc)
+	// the key returned by Public() is the caller's: decoding another key into it (the way a curve-agnostic caller
+	// obtains an empty PublicKey of the right type) must not reach the signer. Done on a clone of the signer.
+	{
+		s2 := e.d.NewPriv()
+		if _, err := s2.SetBytes(b); err == nil {
+			before := s2.Public().Bytes()
+			foreign := e.p.Encode(e.p.C.Mul(e.p.B, big.NewInt(7)))
+			scratch := s2.Public()
+			_, err := scratch.SetBytes(foreign)
+			after := s2.Public().Bytes()
+			c.Check("Public", N+"/Public/returned-key-aliases-the-signer", err != nil || (bytes.Equal(after, before) && bytes.Equal(s2.Bytes(), b)), func() string {
+				return desc() + fmt.Sprintf(": after SetBytes(%s) on the value returned by Public(), Public() = %s (was %s), PrivateKey.Bytes() = %s", hx(foreign), hx(after), hx(before), hx(s2.Bytes()))
+			})
+		}
+	}
 	pb := k.pk.Bytes()
 	c.Check("PublicKey.Bytes", N+"/PublicKey.Bytes/encoding-mismatch", bytes.Equal(pb, e.p.Encode(k.A)), func() string {
 		return desc() + fmt.Sprintf(" got %s want %s", hx(pb), hx(e.p.Encode(k.A)))
